@@ -16,6 +16,13 @@ time, P1 time, a source id - lies in the head or only beyond that prefix); there
 point: a system-timestamped type with source_ids / relative and absolute time ranges, compared with the same read later on
 the loader, with the reader and with the specification.  Relative time ranges with an explicit p1_t0; open() called again on
 a used loader (same log / another log).
+Argument objects used again by the caller (judge_shared_session): the message_types / time_range / source_ids /
+aligned_message_types objects of a call are built once and passed to 2-4 reads on two logs with different t0 - on two loaders
+that are alive at the same time, and on one loader after open() of the other log; every read must equal the fresh-loader
+result for its log (fresh loader, new objects) and must leave the objects as a deep copy taken before the call describes
+them (TimeRange: bounds, absolute, p1_t0, the in-range latches; containers: type and elements).
+Logs with measurement types that carry `details` (RawIMUOutput, RawWheelSpeedOutput) and require_system_time histories over
+them (run_details): judged by the fresh loader and the reader only (the Lean registry has no such kind of type).
 Calls: message_types is spelled as a list of MessageType, of integers, as a numpy array, as payload classes, a tuple, a
 set, a bare MessageType / class, or a mixture with None entries.
 """
@@ -1158,10 +1165,13 @@ def check_fresh_spec(ctx, env, c, fresh_text):
                       (describe(c), fresh_text[:300], reader_raises), replay_obj(env, [c]))
         return
     bad_types = set()
+
+    def wid(o):
+        return 'd%d' % env.spec[o][1] if env.spec[o][0] == W else str(o)
     if c['inorder']:
         got = fresh_text.split('/')[1]
         want = lst([str(o) for _, o in exp])
-        bad = got != want
+        bad = got != lst([wid(o) for _, o in exp])
         if c['ridx'] and fresh_text.split('/')[2] != want:
             bad = True
     else:
@@ -1171,10 +1181,8 @@ def check_fresh_spec(ctx, env, c, fresh_text):
             ids = [o for tt, o in exp if tt == t]
             want = lst([str(o) for o in ids])
             if t == W:
-                # no field for an ordinal: compare the count and, when requested, the message index
-                if not (c['numpy'] and not c['keep']) and (f[1] == '-') != (not ids):
-                    bad_types.add(t)
-                if not (c['numpy'] and not c['keep']) and f[1] != '-' and len(f[1].split('.')) != len(ids):
+                # no field for an ordinal: identified by its P1 time (distinct in the logs that have the type)
+                if not (c['numpy'] and not c['keep']) and f[1] != lst([wid(o) for o in ids]):
                     bad_types.add(t)
                 if c['ridx'] and not (c['numpy'] and c['rmnan']) and f[2] != want:
                     bad_types.add(t)
@@ -1827,7 +1835,18 @@ def check(ctx):
                        'same log, or the other of a pair of logs) before 5% of the later calls: the call must return what a loader '
                        'freshly opened on that log returns (the model is compared from the last open() on). A call is made after a read '
                        'that cached all its types under other arguments and then repeated (on logs without P1 time, where a time range '
-                       'raises, in 45% of the histories). Compared per call and per type: identities of the returned messages (ordinal embedded '
+                       'raises, in 45% of the histories). Argument objects used again: per log 5 (thorough 10) sessions, and 36 on a fixed pair of '
+                       'logs, in which one TimeRange object (relative without t0 / relative with explicit t0 / absolute / none), one '
+                       'message_types object (list of enums, set, classes, integers, tuple, array), one source_ids object (list / set '
+                       '/ tuple) and one aligned_message_types list are passed to 2-4 reads of two logs with different first P1 times '
+                       '(the previous log, or the same log shifted in time) - two DataLoader objects alive at once, open() of the '
+                       'other log on a used loader, scalar arguments changed in 30% of the later steps; each read must equal the '
+                       'same call with new objects on a loader freshly opened on its log, and every argument object must equal the '
+                       'deep copy taken before the call (all TimeRange members incl. p1_t0 and the latches; container type and '
+                       'elements). Two logs per run (thorough 10) hold RawIMUOutput / RawWheelSpeedOutput (MeasurementDetails, every '
+                       'third timestamped on reception) among Pose/Event; histories there read all types / a superset and then the '
+                       'details types alone with require_system_time and otherwise equal arguments (both orders), judged by the '
+                       'fresh loader and the reader. Compared per call and per type: identities of the returned messages (ordinal embedded '
                        'in each payload, d<time> for inserted defaults), message_index, and the per-column identities of the numpy '
                        'members. non-trivial = at least two calls, the last returns a message, and some returned MessageData object '
                        'was served from the cache; distinct = distinct (log, history)')
@@ -1887,7 +1906,7 @@ def replay(ctx, path):
         hist.append(c)
     lines, pending = [], []
     one_history(ctx, F, env, hist, registry_text(F), '%d/%d' % (probe_drops_untimed(F), probe_keeps_unavailable(F, env)),
-                lines, pending)
+                lines, pending, model=not any(s[0] in (I, W) for s in spec))
     for c in hist:
         check_fresh_spec(ctx, env, c, env.fresh(c))
     outs = ctx.driver(lines)
